@@ -148,6 +148,7 @@ func strVal(i int) string {
 func genericInstance[V comparable](enc func(int) V, dec func(V) int) *smInstance {
 	m := strmap.New[V]()
 	var zero V
+	emptyLoads := 0
 	return &smInstance{
 		load: func(kk []string, vals []int, fromMap, mismatch bool) error {
 			vv := make([]V, len(vals))
@@ -161,6 +162,11 @@ func genericInstance[V comparable](enc func(int) V, dec func(V) int) *smInstance
 				mm := make(map[string]V, len(kk))
 				for i, k := range kk {
 					mm[k] = vv[i]
+				}
+				if len(kk) == 0 {
+					if emptyLoads++; emptyLoads%2 == 1 {
+						mm = nil // a nil map holds no pairs either
+					}
 				}
 				return m.LoadFromMap(mm)
 			}
@@ -258,6 +264,7 @@ func newInstance(vtype int) *smInstance {
 		return genericInstance(func(i int) [3]byte { return [3]byte{byte(i), byte(i >> 8), byte(i >> 16)} }, func(v [3]byte) int { return int(v[0]) | int(v[1])<<8 | int(v[2])<<16 })
 	case 0:
 		m := strmap.New[int]()
+		emptyLoads0 := 0
 		return &smInstance{
 			load: func(kk []string, vals []int, fromMap, mismatch bool) error {
 				if mismatch {
@@ -267,6 +274,11 @@ func newInstance(vtype int) *smInstance {
 					mm := make(map[string]int, len(kk))
 					for i, k := range kk {
 						mm[k] = vals[i]
+					}
+					if len(kk) == 0 {
+						if emptyLoads0++; emptyLoads0%2 == 1 {
+							mm = nil
+						}
 					}
 					return m.LoadFromMap(mm)
 				}
@@ -340,8 +352,7 @@ func newInstance(vtype int) *smInstance {
 		}
 	case 2:
 		m := strmap.NewStr2Str()
-		var cur map[string]int // to map string values back to indices
-		_ = cur
+		emptyLoads2 := 0
 		return &smInstance{
 			load: func(kk []string, vals []int, fromMap, mismatch bool) error {
 				vv := make([]string, len(vals))
@@ -355,6 +366,11 @@ func newInstance(vtype int) *smInstance {
 					mm := make(map[string]string, len(kk))
 					for i, k := range kk {
 						mm[k] = vv[i]
+					}
+					if len(kk) == 0 {
+						if emptyLoads2++; emptyLoads2%2 == 1 {
+							mm = nil
+						}
 					}
 					return m.LoadFromMap(mm)
 				}
@@ -802,11 +818,16 @@ func TestC07_KeyBytes(t *testing.T) {
 // of loads; after every large load the whole map is compared with the Go map, after every small one its
 // own keys and some keys of the previous large load.
 func TestC07_LongHistory(t *testing.T) {
-	rec := evid.New("C07", "c07_long_history", "enumeration: for every gap g in 0..600 (thorough: also 65530..65540): on one instance per map flavour, a load of 150..260 keys, then g reloads with 1..6 keys, then a load of as many (or up to 2 fewer) other keys; every loaded key is read back and keys of earlier loads must be absent, Len and Item enumeration compared; every (flavour, g) is one evaluation; distinct by construction; non-trivial = g >= 1")
+	rec := evid.New("C07", "c07_long_history", "enumeration: for every gap g in 0..600 and 1018..1030, 2042..2054, 4090..4102 (thorough: also 65530..65540): on one instance per map flavour, a load of 150..260 keys, then g reloads with 1..6 keys, then a load that fails (slices of different length; nothing may change), then a load of as many (or up to 2 fewer) other keys; every loaded key is read back and keys of earlier loads must be absent, Len and Item enumeration compared; every (flavour, g) is one evaluation; distinct by construction; non-trivial = g >= 1")
 	defer rec.Flush()
 	gaps := []int{}
 	for g := 0; g <= 600; g++ {
 		gaps = append(gaps, g)
+	}
+	for _, c := range []int{1024, 2048, 4096} {
+		for g := c - 6; g <= c+6; g++ {
+			gaps = append(gaps, g)
+		}
 	}
 	if evid.Thorough() {
 		for g := 65530; g <= 65540; g++ {
@@ -873,7 +894,7 @@ func longHistory(vt, g int) *evid.Violation {
 		kk := make([]string, n)
 		vv := make([]int, n)
 		for i := range kk {
-			kk[i] = fmt.Sprintf("r%d-%d-key", round, i*3)
+			kk[i] = fmt.Sprintf("r%d-%d-key-with-a-suffix-that-makes-the-key-storage-exceed-4KiB", round, i*3)
 			vv[i] = i + round*1000 + 1
 		}
 		return kk, vv
@@ -923,6 +944,22 @@ func longHistory(vt, g int) *evid.Violation {
 			if v := verify(fmt.Sprintf("after small reload %d of %d", i+1, g), kk, vv, k0[:8]); v != nil {
 				return v
 			}
+		}
+	}
+	// a failing load (slices of different length) after the run of small reloads must change nothing
+	if g > 0 {
+		lastN := 1 + (g-1)%6
+		kk := make([]string, lastN)
+		vv := make([]int, lastN)
+		for j := range kk {
+			kk[j] = fmt.Sprintf("s%d-%d", g-1, j)
+			vv[j] = g - 1 + j + 1
+		}
+		if err := inst.load([]string{"x", "y"}, []int{1, 2}, false, true); err == nil {
+			return evid.Failf("a load with slices of different length succeeded")
+		}
+		if v := verify(fmt.Sprintf("after %d small reloads and a failed load", g), kk, vv, []string{"x", "y"}); v != nil {
+			return v
 		}
 	}
 	k1, v1 := bigKeys(1)
